@@ -105,8 +105,14 @@ def run_order(ctx, report, timeout_ms):
     report.add(ob)
 
 
+def partly_readable_producers_spec():
+    sp = c14.base_spec('none', debug=False)
+    sp.producers = [(S('language'), [(S('Rust'), S('1.70'))]), 'ERR']       # one complete field, then something the reader rejects
+    return sp
+
+
 def run_fixpoint(ctx, report, timeout_ms, variant):
-    spec = rich_spec() if variant == 'rich' else scen.full_module(variant)
+    spec = rich_spec() if variant == 'rich' else (partly_readable_producers_spec() if variant == 'partly-readable-producers' else scen.full_module(variant))
     ob = common.Obligation('O8.5:%s' % variant, 're-parsing walrus\'s own output (the recorded module turned back into a description) and emitting again reproduces it exactly (same sections, order, indices, immediates)')
     try:
         table = witness.load_table()
@@ -160,6 +166,7 @@ def run(tier, seed, only=None):
         run_repeat(ctx, report, timeout_ms)
         run_order(ctx, report, timeout_ms)
         run_fixpoint(ctx, report, timeout_ms, 'rich')
+        run_fixpoint(ctx, report, timeout_ms, 'partly-readable-producers')
         if tier != 'quick':
             for v in (0, 1, 2):
                 run_fixpoint(ctx, report, timeout_ms, v)
